@@ -109,6 +109,7 @@ pub struct MemState {
     pub faults: Vec<(u64, io::ErrorKind)>,
     pub reads: u64,
     pub sender: Option<EventSender>,
+    pub silent: bool,
     pub hot: bool,
 }
 
@@ -170,7 +171,15 @@ impl Mem {
             reads: 0,
             sender: None,
             hot,
+            silent: false,
         })))
+    }
+
+    /// a source whose reads leave no trace events (the second, independent cache of `orf` / `ord`)
+    pub fn new_silent(hot: bool) -> Mem {
+        let m = Mem::new(hot);
+        m.st().silent = true;
+        m
     }
 
     pub fn st(&self) -> std::sync::MutexGuard<'_, MemState> {
@@ -258,9 +267,12 @@ impl Source for Mem {
                 None => Err(io::Error::new(io::ErrorKind::NotFound, "no such file")),
             }
         };
+        let silent = self.st().silent;
         match res {
             Ok(b) => {
-                trace(Ev::Read(id.into(), ext.into(), format!("ok:{}", b.len())));
+                if !silent {
+                    trace(Ev::Read(id.into(), ext.into(), format!("ok:{}", b.len())));
+                }
                 // rotate through the three FileContent variants
                 Ok(match idx % 3 {
                     0 => FileContent::Buffer(b),
@@ -269,7 +281,9 @@ impl Source for Mem {
                 })
             }
             Err(e) => {
-                trace(Ev::Read(id.into(), ext.into(), format!("err:{}", kind_name(e.kind()))));
+                if !silent {
+                    trace(Ev::Read(id.into(), ext.into(), format!("err:{}", kind_name(e.kind()))));
+                }
                 Err(e)
             }
         }
@@ -300,16 +314,21 @@ impl Source for Mem {
                 }
             }
         };
+        let silent = self.st().silent;
         match listing {
             Ok(v) => {
-                trace(Ev::ReadDir(id.into(), format!("ok:{}", v.len())));
+                if !silent {
+                    trace(Ev::ReadDir(id.into(), format!("ok:{}", v.len())));
+                }
                 for e in &v {
                     f(e.as_dir_entry());
                 }
                 Ok(())
             }
             Err(e) => {
-                trace(Ev::ReadDir(id.into(), format!("err:{}", kind_name(e.kind()))));
+                if !silent {
+                    trace(Ev::ReadDir(id.into(), format!("err:{}", kind_name(e.kind()))));
+                }
                 Err(e)
             }
         }
@@ -376,6 +395,13 @@ impl std::fmt::Display for ScriptFail {
 impl std::error::Error for ScriptFail {}
 
 pub fn parse_int(bytes: &[u8]) -> Result<i64, BoxedError> {
+    // loaders built on io::Read fail with io::Error: still a *decoding* error of the loader
+    if bytes.starts_with(b"!nf") {
+        return Err(Box::new(io::Error::new(io::ErrorKind::NotFound, ConvErr("io-typed decoding error".into()))));
+    }
+    if bytes.starts_with(b"!id") {
+        return Err(Box::new(io::Error::new(io::ErrorKind::InvalidData, ConvErr("io-typed decoding error".into()))));
+    }
     let s = std::str::from_utf8(bytes).map_err(|_| Box::new(ConvErr("utf8".into())) as BoxedError)?;
     s.trim()
         .parse::<i64>()
@@ -492,7 +518,14 @@ pub struct TWideC(pub [u64; 512]);
 pub struct TWideCLoader;
 impl Loader<TWideC> for TWideCLoader {
     fn load(content: Cow<[u8]>, _ext: &str) -> Result<TWideC, BoxedError> {
-        let n = parse_int(&content)?;
+        // "s<n>": a slow loader (longer than any plausible internal time-out)
+        let content: &[u8] = if content.starts_with(b"s") {
+            std::thread::sleep(std::time::Duration::from_millis(1600));
+            &content[1..]
+        } else {
+            &content
+        };
+        let n = parse_int(content)?;
         Ok(TWideC([n as u64; 512]))
     }
 }
@@ -512,6 +545,10 @@ impl NotHotReloaded for SVal {}
 /// Class of a leaf error.
 pub fn leaf_class(e: &(dyn std::error::Error + 'static)) -> String {
     if let Some(io) = e.downcast_ref::<io::Error>() {
+        // an io::Error made by a loader (it carries the loader's marker) is a decoding error
+        if io.get_ref().map(|inner| inner.is::<ConvErr>()).unwrap_or(false) {
+            return "conv".into();
+        }
         return format!("io:{}", kind_name(io.kind()));
     }
     if e.downcast_ref::<ConvErr>().is_some() {
@@ -545,6 +582,35 @@ pub fn error_chain(e: &assets_manager::Error) -> (Vec<String>, String) {
 /// A second cache some script lines talk to (`other <line>`).
 pub static OTHER_CACHE: once_cell::sync::OnceCell<assets_manager::AssetCache<Mem>> =
     once_cell::sync::OnceCell::new();
+
+/// The files of the second cache's source: the same ids as the first one's universe, contents of
+/// k+1 bytes for the k-th id (all with extension "x"), directories "", "d", "d.e", "q".
+pub const OTHER_FILES: &[&str] = &["a", "b", "c", "d.a", "d.b", "d.e.a", "q.a"];
+pub fn other_file_len(id: &str) -> Option<usize> {
+    OTHER_FILES.iter().position(|x| *x == id).map(|k| k + 1)
+}
+pub fn other_dir_count(dir: &str) -> Option<usize> {
+    let dirs = ["", "d", "d.e", "q"];
+    if !dirs.contains(&dir) {
+        return None;
+    }
+    let files = OTHER_FILES.iter().filter(|f| parent_id(f) == Some(dir)).count();
+    let subs = dirs.iter().filter(|d| !d.is_empty() && parent_id(d) == Some(dir)).count();
+    Some(files + subs)
+}
+/// the second cache: hot-reloaded (it has its own reloader), silent, never edited
+pub fn other_cache() -> &'static assets_manager::AssetCache<Mem> {
+    OTHER_CACHE.get_or_init(|| {
+        let m = Mem::new_silent(true);
+        for d in ["d", "d.e", "q"] {
+            m.set_dir(d, Some(None));
+        }
+        for f in OTHER_FILES {
+            m.write(f, "x", &vec![b'1'; other_file_len(f).unwrap()]);
+        }
+        assets_manager::AssetCache::with_source(m)
+    })
+}
 
 pub static RACE_EXPECTED: AtomicU64 = AtomicU64::new(0);
 pub static RACE_ARRIVED: AtomicU64 = AtomicU64::new(0);
@@ -655,6 +721,20 @@ pub fn run_line(cache: AnyCache, words: &[&str]) -> Result<i64, BoxedError> {
                 .unwrap()
             })
             .map_err(|_e: String| Box::new(ScriptFail) as BoxedError)
+        }
+        // reads through ANOTHER hot-reloaded cache's source while this cache's asset is loading
+        ["orf", id, ext] => {
+            let any = other_cache().as_any_cache();
+            let src = any.raw_source();
+            let c = src.read(&unq(id), &unq(ext))?;
+            Ok(c.as_ref().len() as i64)
+        }
+        ["ord", id] => {
+            let mut n = 0;
+            let any = other_cache().as_any_cache();
+            let src = any.raw_source();
+            src.read_dir(&unq(id), &mut |_| n += 1)?;
+            Ok(n)
         }
         ["other", rest @ ..] => match OTHER_CACHE.get() {
             Some(c) => run_line(c.as_any_cache(), rest),
